@@ -16,6 +16,21 @@ CLAIMED = {
          'coefficients are the Taylor coefficients of the product/quotient curve; dtype calculus (complex in => complex out for every operator x operand kind x order) as a finite table. '
          'Broadcasting and operand-kind dispatch are modelled (L2) and tied by the correspondence run over all kinds/orders/shape pairs/in-place and power forms; the lifting lemma from series to '
          'broadcast arrays is not yet a theorem (partial).')),
+ 'C10': dict(
+   technique='Lean 4 theorems (zeroth coefficient of every kernel, comparison = all over zeroth coefficients, shape laws) + NumPy reference oracle',
+   text=('Theorems for all D, P, shapes: zeroth coefficient of every L0 kernel is the NumPy value on zeroth coefficients (leaf or plain arithmetic) independent of higher coefficients; '
+         'comparison operators are numpy.all over zeroth coefficients and ignore higher ones; element-wise ops keep the shape, binary ops return the broadcast shape. Matrix functions, factorizations '
+         'and dispatcher behaviour on plain arrays are checked against numpy/scipy references on the implementation for 79 registered operations (partial: no theorem for those).')),
+ 'C11': dict(
+   technique='Lean 4 theorems (index algebra of the (D,P)+shape layout, direction projection commutes) + per-direction re-evaluation oracle',
+   text=('Theorems for all D, P, shapes: every element-wise function and every binary operator (after UTPM-aware broadcasting) computes result direction p from direction p of the operands only '
+         '(evaluation on direction p alone gives the same series). Matrix kernels, factorizations and the reverse sweep are checked on the implementation by per-direction re-evaluation with different '
+         'base points per direction (partial: no theorem for those).')),
+ 'C14': dict(
+   technique='Lean 4 theorems (loop invariants of coefficient-level heap programs with aliased buffers) + byte-comparison oracle',
+   text=('Theorems for all D: the descending _mul loop with out aliasing x, y or both computes the Cauchy product of the original operands; the in-place product x *= y equals x * y (on the repaired '
+         'code, so x *= x == x * x); counterexample theorem for the unrepaired loop; division forms build their result in a temporary. That public operations leave arguments untouched and that '
+         'recording/reverse sweep leave inputs and seeds untouched is checked by byte comparison over all registered operations (partial: no theorem).')),
 }
 _todo = 'check under construction in this session: Lean model/theorems and correspondence not committed yet'
 NOT_APPLICABLE = {('C%02d' % i): _todo for i in range(1, 18)}
